@@ -445,6 +445,36 @@ mut('c17-property-access-swapped', ['C17', 'C15'], 'txdbus/interface.py',
 mut('c17-set-wrong-attr', ['C17'], OB,
     [("        return setattr(self, p.attr_name, value)", "        return setattr(self, p.pname, value)")], ['C17.D5'])
 
+# ---- C12 ------------------------------------------------------------------
+RT = 'txdbus/router.py'
+twin('c12-prefix-type-unenforced', ['C12'], 'edc2ad6', ['C12.D1', 'C12.D2'], 'pre-fix twin')
+twin('c12-prefix-textual-prefix', ['C12'], 'c99f22c', ['C12.D3'], 'pre-fix twin')
+twin('c12-prefix-no-body-matches', ['C12'], '96cc097', ['C12.D4'], 'pre-fix twin')
+mut('c12-member-not-stored', ['C12'], RT,
+    [("        if member:\n            r.add('member', member)\n", "")], ['C12.D1'])
+mut('c12-destination-key-typo', ['C12'], RT,
+    [("            r.add('destination', destination)", "            r.add('dest', destination)")], ['C12.D1'])
+mut('c12-argpath-one-way', ['C12'], RT,
+    [("                        or (a.endswith('/') and val.startswith(a))\n", "")], ['C12.D3'])
+mut('c12-argpath-no-slash-check', ['C12'], RT,
+    [("                        or (val.endswith('/') and a.startswith(val))", "                        or a.startswith(val)")], ['C12.D3'])
+mut('c12-namespace-no-equal', ['C12'], RT,
+    [("                    m.path == ns\n                    or m.path.startswith(ns.rstrip('/') + '/')", "                    m.path.startswith(ns.rstrip('/') + '/')")], [],
+    kind='break', note='namespace itself no longer matches - needs a namespace truth table (not decided): expected MISSED')
+mut('c12-callback-unprotected', ['C12'], RT,
+    [("        except BaseException:\n            log.err()", "        except KeyError:\n            log.err()")], ['C12.D5'])
+mut('c12-delmatch-noop', ['C12'], RT,
+    [("        del self._rules[rule_id]", "        self._rules.get(rule_id)")], ['C12.D5'])
+mut('c12-client-rule-swaps-params', ['C12'], CL,
+    [("                mtype,\n                sender,\n                interface,\n                member,\n                path,", "                mtype,\n                sender,\n                member,\n                interface,\n                path,")], ['C12.D6'])
+mut('c12-client-text-key', ['C12'], CL,
+    [("        add('path_namespace', path_namespace)", "        add('path_namspace', path_namespace)")], ['C12.D6'])
+mut('c12-proxy-no-signature-check', ['C12'], OB,
+    [("            if isSignatureValid(signal.sig, sig_msg.signature):\n                if sig_msg.body:\n                    callback(*sig_msg.body)\n                else:\n                    callback()",
+      "            if sig_msg.body:\n                callback(*sig_msg.body)\n            else:\n                callback()")], ['C12.D7'])
+mut('c12-short-body-matches', ['C12'], RT,
+    [("                    if idx >= len(m.body) or m.body[idx] != val:\n                        return", "                    if idx < len(m.body) and m.body[idx] != val:\n                        return")], ['C12.D4'])
+
 # benign variants --------------------------------------------------------------
 mut('ok-int16-condexpr', ['C01', 'C02'], M,
     [("return 2, [struct.pack(lendian and '<h' or '>h', var)]",
